@@ -350,7 +350,8 @@ Section WithFile.
 End WithFile.
 
 (** * The file used by the correspondence run *)
-Record pfile := { pf_bytes : bytes; pf_failpos : option Z; pf_failst : N }.
+(* [pf_fail = Some (lo, hi)]: every cache read that touches a byte in [lo, hi) fails *)
+Record pfile := { pf_bytes : bytes; pf_fail : option (Z * Z); pf_failst : N }.
 
 Fixpoint take0 (n : nat) (b : bytes) : bytes :=
   match n with
@@ -362,17 +363,20 @@ Fixpoint take0 (n : nat) (b : bytes) : bytes :=
   end.
 (* [len] bytes at [pos]; zero bytes past the end *)
 Definition slice0 (b : bytes) (pos len : N) : bytes :=
-  take0 (N.to_nat len) (skipn (N.to_nat pos) b).
+  if N.of_nat (length b) <=? pos then zeros len
+  else take0 (N.to_nat len) (skipn (N.to_nat pos) b).
 
 Definition file_rd (f : pfile) (pos : Z) (len : N) : rd_res :=
   if len =? 0 then RdOk []
   else
-    let failing := match pf_failpos f with
-                   | Some fp => (fp <? pos + Z.of_N len)%Z
+    let failing := match pf_fail f with
+                   | Some (lo, hi) => ((lo <? pos + Z.of_N len) && (pos <? hi))%Z
                    | None => false
                    end in
     if failing then RdErr (pf_failst f)
-    else if (pos <? 0)%Z then RdErr ST_SYSTEM      (* pread: EINVAL *)
+    else if ((pos <? 0) || (OFF_MAX - 4095 <? pos + Z.of_N len))%Z
+    then RdErr ST_SYSTEM      (* pread(2): EINVAL for a negative offset and for a page whose end
+                                 is not representable in loff_t *)
     else RdOk (slice0 (pf_bytes f) (Z.to_N pos) len).
 
 (** What the driver prints for one file: everything the map and the offset
